@@ -21,7 +21,8 @@ CONSTANTS N, Methods, Vers, ReqConns, ReqBodies, Pends, Reads, Keeps, RespBodies
           BadKind,            \* "head" | "chunk"
           Budgets,            \* initial write budgets ( 99 = unlimited )
           HalfClosed, KaOn,
-          DEV_CtxShared, DEV_PopIgnoresClose, DEV_UnreadCrossRequest, DEV_ChunkErrIsDisconnect, DEV_304Body,
+          UpgAt,              \* 0 = none; N = the last request is an upgrade request and an upgrade service is configured
+          DEV_CtxShared, DEV_PopIgnoresClose, DEV_UnreadCrossRequest, DEV_ChunkErrIsDisconnect, DEV_304Body, DEV_UpgradeDropsWbuf,
           KnownSigs           \* signatures of recorded (not repaired) findings: the masked form of RefAccepts (DESIGN.md 2.5)
 
 VARIABLES reqs, progs, wire, sock, rbuf, peerEof,
@@ -41,7 +42,8 @@ BodyUnits(b) == IF b = "none" THEN 0 ELSE 2
 \* response bodies: "empty" (Sized 0) | "bytes" (Sized 2, one chunk) | "stream" (2 chunks, chunked)
 
 UnitsOf(i, r, bad) ==
-  IF bad = "head" THEN <<[k |-> "X", i |-> i]>>
+  IF i = UpgAt THEN <<[k |-> "U", i |-> i]>>
+  ELSE IF bad = "head" THEN <<[k |-> "X", i |-> i]>>
   ELSE <<[k |-> "H", i |-> i]>> \o
        (IF r.body = "none" THEN <<>>
         ELSE IF bad = "chunk" THEN <<[k |-> "B", i |-> i], [k |-> "C", i |-> i]>>
@@ -54,11 +56,13 @@ GtOf(rq) ==
   LET len(i) == Len(UnitsOf(i, rq[i], IF i = BadAt THEN BadKind ELSE ""))
       S[i \in 0..N] == IF i = 0 THEN 0 ELSE S[i-1] + len(i)
   IN [i \in 1..N |->
-        [m |-> rq[i].m, ver |-> rq[i].ver, conn |-> rq[i].conn, expect |-> FALSE,
+        [m |-> rq[i].m, ver |-> rq[i].ver, conn |-> (IF i = UpgAt THEN "upgrade" ELSE rq[i].conn), expect |-> FALSE,
          blen |-> (IF i = BadAt /\ BadKind = "chunk" THEN 1 ELSE BodyUnits(rq[i].body)), chunked |-> (rq[i].body = "ch"),
-         start |-> S[i-1], end |-> S[i], headlen |-> 1, upgrade |-> FALSE]]
+         start |-> S[i-1], end |-> S[i], headlen |-> 1, upgrade |-> (i = UpgAt)]]
 PfOf(pg) ==
   [i \in 1..N |->
+     IF i = UpgAt THEN [status |-> 101, conn |-> "-", kind |-> "empty", sized |-> TRUE, declared |-> 0, total |-> 0, none |-> FALSE,
+                        end_err |-> FALSE, read |-> "none", keep |-> "handler", before_empty |-> 0] ELSE
      [status |-> pg[i].status, conn |-> pg[i].rconn, kind |-> pg[i].rbody, sized |-> (pg[i].rbody # "stream"),
       declared |-> (IF pg[i].rbody = "bytes" THEN 2 ELSE 0), total |-> (IF pg[i].rbody = "empty" THEN 0 ELSE 2),
       none |-> FALSE, end_err |-> FALSE, read |-> pg[i].read, keep |-> pg[i].keep, before_empty |-> 0]]
@@ -88,6 +92,7 @@ Init ==
   /\ \A i \in 1..N : /\ (reqs[i].ver = 10 => reqs[i].body # "ch")
                      /\ (reqs[i].body = "none" => progs[i].read = "none" /\ progs[i].keep = "handler")
                      /\ (reqs[i].m = "HEAD" => reqs[i].body = "none")
+                     /\ (i = UpgAt => reqs[i].body = "none" /\ reqs[i].ver = 11 /\ reqs[i].m = "GET" /\ reqs[i].conn = "-" /\ i = N /\ BadAt # i)
   /\ wire = AllUnits(reqs) /\ sock = <<>> /\ rbuf = <<>> /\ peerEof = FALSE
   /\ cpl = 0 /\ lastCtx = [head |-> FALSE, ver |-> 11, conn |-> "close"]
   /\ payload = NoPayload /\ drainable = FALSE /\ msgs = <<>> /\ st = "none" /\ cur = 0
@@ -134,7 +139,8 @@ Same == UNCHANGED <<reqs, progs, wire, peerEof, fedUnits, hist, b0>>
 PollStart ==
   /\ pc = "idle" /\ woken /\ result = "run"
   /\ woken' = FALSE /\ reg' = {}
-  /\ pc' = IF "SHUTDOWN" \in flags THEN "shutdown" ELSE "read"
+  \* after the hand-off only the upgrade service's future is polled
+  /\ pc' = IF st = "upg" THEN "flush" ELSE IF "SHUTDOWN" \in flags THEN "shutdown" ELSE "read"
   /\ Same /\ UNCHANGED <<sock, rbuf, cpl, lastCtx, payload, drainable, msgs, st, cur, curCtx, hp, sendleft, sendkind, closeAfter,
                          flags, error, wbuf, budget, out, result, rs, nresp>>
 
@@ -219,6 +225,9 @@ Request ==
           [] u.k = "E" ->
                /\ cpl' = 0 /\ payload' = NoPayload /\ drainable' = FALSE /\ pc' = "request"
                /\ UNCHANGED <<lastCtx, msgs, st, cur, curCtx, hp, flags, error, rs, sendleft, sendkind, wbuf, closeAfter>>
+          [] u.k = "U" ->      \* upgradable request and an upgrade service: queued as Upgrade, the decode loop stops
+               /\ msgs' = Append(msgs, -101) /\ lastCtx' = CtxOf(u.i) /\ drainable' = FALSE /\ pc' = "response"
+               /\ UNCHANGED <<cpl, payload, st, cur, curCtx, hp, flags, error, rs, sendleft, sendkind, wbuf, closeAfter>>
           [] u.k = "X" ->      \* malformed head: queue 400, stop reading
                /\ msgs' = Append(msgs, -400) /\ flags' = flags \cup {"READ_DISC"} /\ error' = TRUE
                /\ payload' = NoPayload /\ pc' = "response"
@@ -251,7 +260,16 @@ Response ==
   /\ pc = "response"
   /\ CASE st = "none" /\ msgs # <<>> ->
             LET x == Head(msgs) IN
-            IF x = -400 THEN
+            IF x = -101 THEN
+               \* PollResponse::Upgrade: io, codec, read buffer and write buffer move into the Framed handed to the upgrade
+               \* service, which answers 101 through it; whatever was still in the write buffer goes out first
+               /\ msgs' = Tail(msgs) /\ st' = "upg" /\ cur' = UpgAt
+               /\ wbuf' = Append(IF DEV_UpgradeDropsWbuf THEN <<>> ELSE wbuf,
+                                 [k |-> "RH", i |-> UpgAt, ver |-> 11, status |-> 101, len |-> "none", cl |-> 0, conn |-> "upgrade", last |-> TRUE])
+               /\ Emit([ev |-> "Call", i |-> UpgAt, m |-> reqs[UpgAt].m, ver |-> 11, tok |-> TRUE, hok |-> TRUE])
+               /\ pc' = "flush"
+               /\ UNCHANGED <<curCtx, hp, payload, sendleft, sendkind, flags, lastCtx, closeAfter, reg>>
+            ELSE IF x = -400 THEN
                /\ wbuf' = Append(wbuf, [k |-> "RH", i |-> 0, ver |-> lastCtx.ver, status |-> 400, len |-> "cl", cl |-> 0,
                                         conn |-> (IF lastCtx.ver = 11 THEN "close" ELSE "-"), last |-> TRUE])
                /\ msgs' = Tail(msgs) /\ flags' = flags \cup {"FINISHED"} /\ closeAfter' = TRUE
@@ -321,6 +339,10 @@ Tail_ ==
   /\ pc = "tail"
   /\ IF "WRITE_DISC" \in flags
      THEN /\ result' = "done" /\ Emit([ev |-> "Done", res |-> "ok", kind |-> ""]) /\ UNCHANGED <<flags, woken, payload>>
+     ELSE IF st = "upg"
+     THEN \* the upgrade service is done once its response is flushed
+          IF wbuf = <<>> THEN /\ result' = "done" /\ Emit([ev |-> "Done", res |-> "ok", kind |-> ""]) /\ UNCHANGED <<flags, woken, payload>>
+          ELSE UNCHANGED <<result, rs, flags, woken, payload>>
      ELSE
      LET f0 == IF "EOF_SEEN" \in flags /\ rbuf = <<>> THEN flags \cup {"READ_DISC"} ELSE flags
          pl0 == IF "EOF_SEEN" \in flags /\ rbuf = <<>> THEN NoPayload ELSE payload
@@ -366,15 +388,15 @@ Spec == Init /\ [][Next]_vars
 RefAccepts == rs.tag = "ok" \/ rs.sig \in KnownSigs
 (* C04 at design level: an idle, unwoken, running connection has nothing it could do *)
 WorkPossible ==
-  \/ (sock # <<>> /\ "READ_DISC" \notin flags /\ "SHUTDOWN" \notin flags /\ CanRead /\ ~(closeAfter /\ ~HasPl))
+  \/ (sock # <<>> /\ st # "upg" /\ "READ_DISC" \notin flags /\ "SHUTDOWN" \notin flags /\ CanRead /\ ~(closeAfter /\ ~HasPl))
   \/ (wbuf # <<>> /\ budget # 0)
   \/ (st = "svc" /\ hp = 0 /\ HandlerReady(cur, Touch(cur, payload)))
-  \/ (peerEof /\ "EOF_SEEN" \notin flags /\ "READ_DISC" \notin flags /\ "SHUTDOWN" \notin flags /\ sock = <<>>)
+  \/ (peerEof /\ st # "upg" /\ "EOF_SEEN" \notin flags /\ "READ_DISC" \notin flags /\ "SHUTDOWN" \notin flags /\ sock = <<>>)
 NoStall == (pc = "idle" /\ ~woken /\ result = "run") => ~WorkPossible
 (* every byte accepted by the socket was produced exactly once, in order *)
 Terminal == pc = "idle" /\ (result = "done" \/ (~woken /\ wire = <<>> /\ peerEof /\ (st # "svc" \/ hp = 0) /\ budget # 0))
 EmitScript == Terminal => PrintT(<<"CASE", ToJson([reqs |-> reqs, progs |-> progs, steps |-> hist, budget0 |-> b0,
-                                                   bad |-> [at |-> BadAt, kind |-> BadKind], half_closed |-> HalfClosed, ka |-> KaOn])>>)
+                                                   bad |-> [at |-> BadAt, kind |-> BadKind], half_closed |-> HalfClosed, ka |-> KaOn, upg |-> UpgAt])>>)
 View == <<reqs, progs, wire, sock, rbuf, peerEof, cpl, lastCtx, payload, drainable, msgs, st, cur, curCtx, hp, sendleft, sendkind,
           closeAfter, flags, error, wbuf, budget, out, result, woken, reg, pc, rs.tag>>
 =====================================================================================
